@@ -558,7 +558,20 @@ func buildHistory(p *Program, recs []Rec) ([]lin.Ev, string) {
 			} else {
 				ret = lin.Pending
 			}
-			evs = append(evs, lin.Ev{Op: r.Op, Res: rp, Inv: r.Inv, Ret: ret, Thread: r.Thread, Nows: opNows(r.Op.K, r.Nows)})
+			ev := lin.Ev{Op: r.Op, Res: rp, Inv: r.Inv, Ret: ret, Thread: r.Thread, Nows: opNows(r.Op.K, r.Nows)}
+			if usesDefault(&r.Op) {
+				for j := range recs {
+					c := &recs[j]
+					if c.Op.K == model.CSetDefaultExp && c.Thread >= 0 && c.Thread != r.Thread && overlap(c, r) {
+						ev.DefCands = append(ev.DefCands, c.Op.D)
+					}
+				}
+				if len(ev.DefCands) > 0 {
+					// ... and the default that was in force when the call began
+					ev.DefCands = append(ev.DefCands, defaultBefore(p, recs, r))
+				}
+			}
+			evs = append(evs, ev)
 		}
 	}
 	// each stored value reported to the evicted callback at most once over the whole history
@@ -591,6 +604,31 @@ func opNows(k model.Kind, reads []int64) []int64 {
 		return []int64{last, last}
 	}
 	return []int64{reads[0], last}
+}
+
+// usesDefault: the call resolves the DefaultExpiration sentinel.
+func usesDefault(o *model.Op) bool {
+	switch o.K {
+	case model.CSetDefault:
+		return true
+	case model.CSet, model.CGetOrSet, model.CGetAndSet, model.CGetAndRefresh, model.CGetOrCompute, model.CCompute:
+		return o.D == model.DefaultExpiration
+	}
+	return false
+}
+
+// defaultBefore returns the default expiration in force when r was invoked as far as completed
+// SetDefaultExpiration calls determine it (the latest one that returned before r began).
+func defaultBefore(p *Program, recs []Rec, r *Rec) int64 {
+	d := adapt.EffDefault(p.Spec)
+	best := int64(-1)
+	for j := range recs {
+		c := &recs[j]
+		if c.Op.K == model.CSetDefaultExp && c.Done && c.Ret < r.Inv && c.Ret > best {
+			best, d = c.Ret, c.Op.D
+		}
+	}
+	return d
 }
 
 // spanNow: traversals and sweeps may decide by any instant between their first clock read and their return.
